@@ -1,0 +1,142 @@
+//go:build verif
+
+// Contracts for the deductive verifier in /verif (gocv). Comment-only file.
+
+package retry
+
+// ---- one sleep ------------------------------------------------------------------------------------
+
+// expo is floating point (math.Pow): assumed, not verified.
+//@ func expo
+//@   trusted
+//@   pure
+//@   requires base >= 2 && cap >= 2 && n >= 0
+//@   ensures 2 <= result && result <= cap
+
+// Every value of type backoffFn returns a sleep that is non-negative and respects the per-call maximum.
+// (Verified for the only function of this type created by the package, newBackoffFn's closure; assumed for others.)
+//@ functype backoffFn
+//@   modifies nothing
+//@   ensures 0 <= result && (maxSleepMs >= 0 ==> result <= maxSleepMs)
+
+// The closure returned by newBackoffFn: each sleep is within [0, cap], respects the per-call maximum, and is 0 when the
+// context ends first; the attempt counter never decreases and the state needed by the next call is preserved.
+//@ func newBackoffFn$1
+//@   prop C20
+//@   requires base >= 2 && cap >= base && attempts >= 0
+//@   requires jitter == DecorrJitter ==> lastSleep >= base
+//@   ensures range: 0 <= result && result <= cap
+//@   ensures percall: maxSleepMs >= 0 ==> result <= maxSleepMs
+//@   ensures attempts: attempts >= old(attempts) && attempts <= old(attempts) + 1
+//@   ensures state: jitter == DecorrJitter ==> lastSleep >= base
+
+// ---- accounting -----------------------------------------------------------------------------------
+
+//@ spec func okB(b *Backoffer) bool { return 0 <= b.excludedSleep && b.excludedSleep <= b.totalSleep }
+//@ spec func excluded(name string) bool { return inDom(isSleepExcluded, name) }
+
+//@ func (b *Backoffer) CheckKilled
+//@   prop C20
+//@   modifies nothing
+//@   ensures killed: b.vars != nil && b.vars.Killed != nil && *b.vars.Killed != 0 ==> result != nil
+
+// Preconditions: the error being backed off is non-nil and every back-off kind carries the error it reports
+// (true for all kinds defined by this package; NewConfig/SetErrors are expected to be given non-nil errors).
+// budget: a sleep happens only while the budget is not exhausted (so the total exceeds the budget by at most one step);
+// step: a nil result accounts exactly one sleep s = totalSleep' - totalSleep, bounded by the per-call maximum, in every
+// counter of its kind; noop: a no-op back-offer passes the error through untouched.
+//@ func (b *Backoffer) BackoffWithCfgAndMaxSleep
+//@   prop C20
+//@   requires okB(b) && cfg != nil && err != nil && cfg.err != nil
+//@   requires maps: b.backoffSleepMS != isSleepExcluded && b.backoffTimes != isSleepExcluded && (b.backoffSleepMS == nil || b.backoffSleepMS != b.backoffTimes)
+//@   requires forall i int :: 0 <= i && i < len(b.configs) ==> b.configs[i] != nil && b.configs[i].err != nil
+//@   ensures inv: okB(b)
+//@   ensures budget: result == nil ==> !(old(b.maxSleep) > 0 && old(b.totalSleep) - old(b.excludedSleep) >= old(b.maxSleep))
+//@   ensures exbudget: result == nil && excluded(cfg.name) ==> !(old(b.maxSleep) > 0 && old(b.excludedSleep) >= isSleepExcluded[cfg.name] && old(b.excludedSleep) >= old(b.maxSleep))
+//@   ensures exhausted: old(!b.noop) && old(b.maxSleep) > 0 && old(b.totalSleep) - old(b.excludedSleep) >= old(b.maxSleep) ==> result != nil && b.totalSleep == old(b.totalSleep) && b.excludedSleep == old(b.excludedSleep)
+//@   ensures step_range: result == nil ==> 0 <= b.totalSleep - old(b.totalSleep) && (maxSleepMs >= 0 ==> b.totalSleep - old(b.totalSleep) <= maxSleepMs)
+//@   ensures step_excl: result == nil ==> b.excludedSleep - old(b.excludedSleep) == ite(excluded(cfg.name), b.totalSleep - old(b.totalSleep), 0)
+//@   ensures step_kind: result == nil ==> b.backoffSleepMS[cfg.name] == old(b.backoffSleepMS[cfg.name]) + (b.totalSleep - old(b.totalSleep)) && b.backoffTimes[cfg.name] == old(b.backoffTimes[cfg.name]) + 1
+//@   ensures noop: old(b.noop) ==> b.totalSleep == old(b.totalSleep) && b.excludedSleep == old(b.excludedSleep)
+//@   ensures maxkept: b.maxSleep == old(b.maxSleep)
+//@   ensures configs: forall i int :: 0 <= i && i < len(b.configs) ==> b.configs[i] != nil && b.configs[i].err != nil
+
+// longestSleepCfg: the kind (among those not excluded from the budget) that has slept longest so far, provided it is one
+// of the kinds recorded in b.configs.
+//@ func (b *Backoffer) longestSleepCfg
+//@   prop C20
+//@   modifies nothing
+//@   requires forall i int :: 0 <= i && i < len(b.configs) ==> b.configs[i] != nil
+//@   loop 2 invariant idx: -1 <= rangeindex && rangeindex < len(b.configs)
+//@   loop 1 invariant best: maxSleep >= 0 && ((candidate == "" && maxSleep == 0) || (seen(candidate) && !excluded(candidate) && b.backoffSleepMS[candidate] == maxSleep && maxSleep > 0))
+//@   loop 1 invariant all: forall n string :: seen(n) && !excluded(n) ==> b.backoffSleepMS[n] <= maxSleep
+//@   loop 1 invariant dom: forall n string :: seen(n) ==> inDom(b.backoffSleepMS, n)
+//@   ensures member: result0 != nil ==> exists i int :: 0 <= i && i < len(b.configs) && b.configs[i] == result0
+//@   ensures longest: result0 != nil && result1 > 0 ==> !excluded(result0.name) && result1 == b.backoffSleepMS[result0.name] &&
+//@       (forall n string :: inDom(b.backoffSleepMS, n) && !excluded(n) ==> b.backoffSleepMS[n] <= result1)
+//@   ensures none: result0 == nil ==> result1 == 0
+
+//@ func (b *Backoffer) Reset
+//@   prop C20
+//@   ensures b.totalSleep == 0 && b.excludedSleep == 0 && b.fn == nil && b.maxSleep == old(b.maxSleep)
+
+//@ func (b *Backoffer) ResetMaxSleep
+//@   prop C20
+//@   ensures b.totalSleep == 0 && b.excludedSleep == 0
+
+// The two wrappers add nothing to the accounting contract.
+//@ func (b *Backoffer) Backoff
+//@   prop C20
+//@   requires okB(b) && cfg != nil && err != nil && cfg.err != nil
+//@   requires maps: b.backoffSleepMS != isSleepExcluded && b.backoffTimes != isSleepExcluded && (b.backoffSleepMS == nil || b.backoffSleepMS != b.backoffTimes)
+//@   requires forall i int :: 0 <= i && i < len(b.configs) ==> b.configs[i] != nil && b.configs[i].err != nil
+//@   ensures inv: okB(b)
+//@   ensures budget: result == nil ==> !(old(b.maxSleep) > 0 && old(b.totalSleep) - old(b.excludedSleep) >= old(b.maxSleep))
+//@   ensures step_range: result == nil ==> 0 <= b.totalSleep - old(b.totalSleep)
+
+//@ func (b *Backoffer) BackoffWithMaxSleepTxnLockFast
+//@   prop C20
+//@   requires okB(b) && err != nil && BoTxnLockFast != nil && BoTxnLockFast.err != nil
+//@   requires maps: b.backoffSleepMS != isSleepExcluded && b.backoffTimes != isSleepExcluded && (b.backoffSleepMS == nil || b.backoffSleepMS != b.backoffTimes)
+//@   requires forall i int :: 0 <= i && i < len(b.configs) ==> b.configs[i] != nil && b.configs[i].err != nil
+//@   ensures inv: okB(b)
+//@   ensures budget: result == nil ==> !(old(b.maxSleep) > 0 && old(b.totalSleep) - old(b.excludedSleep) >= old(b.maxSleep))
+//@   ensures percall: result == nil ==> 0 <= b.totalSleep - old(b.totalSleep) && (maxSleepMs >= 0 ==> b.totalSleep - old(b.totalSleep) <= maxSleepMs)
+
+// ---- clone / fork / merge ---------------------------------------------------------------------------
+
+//@ func copyMapWithoutRecursive
+//@   prop C20
+//@   loop 1 invariant copied: forall k string :: inDom(result, k) == (inDom(srcMap, k) && seen(k))
+//@   loop 1 invariant values: forall k string :: inDom(result, k) ==> result[k] == srcMap[k]
+//@   loop 1 invariant fresh: result != nil && result != srcMap
+//@   loop 1 invariant frame: forall k string :: srcMap[k] == old(srcMap[k]) && inDom(srcMap, k) == old(inDom(srcMap, k))
+//@   ensures fresh: result != nil && result != srcMap
+//@   ensures same: forall k string :: inDom(result, k) == inDom(srcMap, k) && result[k] == srcMap[k]
+//@   ensures frame: forall k string :: srcMap[k] == old(srcMap[k])
+
+// A clone and a fork start from the parent's accounting (every counter and both per-kind maps, pointwise) and own their maps.
+//@ func (b *Backoffer) Clone
+//@   prop C20
+//@   ensures counters: result != nil && result != b && result.totalSleep == b.totalSleep && result.excludedSleep == b.excludedSleep && result.maxSleep == b.maxSleep && result.errorsNum == b.errorsNum && result.parent == b.parent
+//@   ensures maps: forall k string :: result.backoffSleepMS[k] == b.backoffSleepMS[k] && result.backoffTimes[k] == b.backoffTimes[k]
+//@   ensures own: result.backoffSleepMS != b.backoffSleepMS && result.backoffTimes != b.backoffTimes && result.backoffSleepMS != nil && result.backoffTimes != nil
+//@   ensures frame: b.totalSleep == old(b.totalSleep) && b.excludedSleep == old(b.excludedSleep)
+
+//@ func (b *Backoffer) Fork
+//@   prop C20
+//@   ensures counters: result0 != nil && result0 != b && result0.totalSleep == b.totalSleep && result0.excludedSleep == b.excludedSleep && result0.maxSleep == b.maxSleep && result0.errorsNum == b.errorsNum && result0.parent == b
+//@   ensures maps: forall k string :: result0.backoffSleepMS[k] == b.backoffSleepMS[k] && result0.backoffTimes[k] == b.backoffTimes[k]
+//@   ensures own: result0.backoffSleepMS != b.backoffSleepMS && result0.backoffTimes != b.backoffTimes
+//@   ensures frame: b.totalSleep == old(b.totalSleep) && b.excludedSleep == old(b.excludedSleep)
+
+// Merging a fork back into its parent (the usual case: forked.parent == b) makes the parent's accounting equal to the
+// fork's: nothing the fork slept is lost and nothing is counted twice. A nil fork changes nothing.
+//@ func (b *Backoffer) UpdateUsingForked
+//@   prop C20
+//@   loop 1 peel 1
+//@   requires b != nil
+//@   ensures merged: forked != nil && old(forked.parent) == b && forked != b ==> b.totalSleep == old(forked.totalSleep) && b.excludedSleep == old(forked.excludedSleep) &&
+//@       b.errorsNum == old(forked.errorsNum) && b.backoffSleepMS == old(forked.backoffSleepMS) && b.backoffTimes == old(forked.backoffTimes)
+//@   ensures nilfork: forked == nil ==> b.totalSleep == old(b.totalSleep) && b.excludedSleep == old(b.excludedSleep) && b.backoffSleepMS == old(b.backoffSleepMS)
+//@   ensures forkkept: forked != nil && forked != b ==> forked.totalSleep == old(forked.totalSleep) && forked.excludedSleep == old(forked.excludedSleep)
